@@ -251,17 +251,98 @@ class _NullOut:
 _CHECK = None
 
 
+def prepare(check):
+    """Bring the process to the state every run is forked from: seams
+    installed and one fixed warm-up execution done, so that lazy imports and
+    plugin registries (PIL, imageio, nibabel, ...) are loaded once and not
+    again in every forked run.  The same preparation precedes replays and
+    minimisation, so all executions start from the same state."""
+    if getattr(check, "_prepared", False):
+        return
+    check.setup_worker()
+    try:
+        for i in range(3):
+            run_trace(check, check.gen(random.Random(777 + i), "quick", i))
+    except KeyboardInterrupt:
+        raise
+    except BaseException:  # noqa: BLE001 - warm-up is best effort
+        pass
+    check._prepared = True
+
+
 def _worker_init(check):
     global _CHECK
     _CHECK = check
     faulthandler.enable()
     sys.stdout = _NullOut()      # the SUT prints; only the parent reports
-    check.setup_worker()
+    prepare(check)
 
 
 def _digest_of(check, trace):
     res = check.execute(json.loads(json.dumps(trace)))
     return res
+
+
+def _slim(res):
+    """Result without unpicklable / bulky members."""
+    res.info = json.loads(json.dumps(res.info, default=str))
+    return res
+
+
+def _in_fork(fn):
+    """Run fn() in a forked child and return its (picklable) result.
+
+    One run = one pristine copy of the worker: process-global state that the
+    system under test mutates (class-level caches, module globals, default
+    arguments) cannot leak from one run into the next, so a run stays a pure
+    function of its seed whatever the repository does with global state."""
+    import pickle
+    r, w = os.pipe()
+    pid = os.fork()
+    if pid == 0:
+        code = 0
+        try:
+            os.close(r)
+            try:
+                data = pickle.dumps(("ok", fn()))
+            except KeyboardInterrupt:
+                raise
+            except BaseException:  # noqa: BLE001
+                data = pickle.dumps(("err", traceback.format_exc()))
+            with os.fdopen(w, "wb") as f:
+                f.write(data)
+        except BaseException:  # noqa: BLE001
+            code = 3
+        finally:
+            os._exit(code)
+    os.close(w)
+    with os.fdopen(r, "rb") as f:
+        data = f.read()
+    _pid, status = os.waitpid(pid, 0)
+    if not data:
+        return ("err", f"forked run died (wait status {status})")
+    return pickle.loads(data)
+
+
+def _one_run(check, base_seed, tier, idx, recheck_every):
+    seed = run_seed(base_seed, check.pid, idx)
+    rec = {"idx": idx, "seed": seed}
+    rng = random.Random(seed)
+    trace = check.gen(rng, tier, idx)
+    trace = json.loads(json.dumps(trace))   # enforce serialisable
+    res = run_trace(check, trace)
+    rec.update(digest=res.digest, steps=res.steps, faults=res.faults,
+               probes=res.probes, sig=res.sig,
+               nontrivial=res.nontrivial, evals=res.evals,
+               sigs=res.sigs)
+    if res.violations:
+        rec["violations"] = [v.to_json() for v in res.violations]
+        rec["trace"] = trace
+    elif idx % 97 == 0 or idx < 2 or (recheck_every
+                                      and idx % recheck_every == 0):
+        rec["trace"] = trace
+        rec["info"] = res.info
+    return rec
 
 
 def _run_batch(args):
@@ -272,35 +353,24 @@ def _run_batch(args):
     try:
         for idx in indices:
             seed = run_seed(base_seed, check.pid, idx)
-            rec = {"idx": idx, "seed": seed}
-            try:
-                rng = random.Random(seed)
-                trace = check.gen(rng, tier, idx)
-                trace = json.loads(json.dumps(trace))   # enforce serialisable
-                res = run_trace(check, trace)
-                if recheck_every and idx % recheck_every == 0:
-                    res2 = run_trace(check, trace)
-                    if res2.digest != res.digest:
-                        raise HarnessError(
-                            f"non-deterministic execution idx={idx} "
-                            f"{res.digest} != {res2.digest}")
-                    rec["rechecked"] = True
-            except KeyboardInterrupt:
-                raise
-            except BaseException:  # noqa: BLE001 - incl. HarnessError/SimCrash
-                rec["harness_error"] = traceback.format_exc()
-                out.append(rec)
+            st, rec = _in_fork(lambda: _one_run(check, base_seed, tier, idx,
+                                                recheck_every))
+            if st != "ok":
+                out.append({"idx": idx, "seed": seed, "harness_error": rec})
                 continue
-            rec.update(digest=res.digest, steps=res.steps, faults=res.faults,
-                       probes=res.probes, sig=res.sig,
-                       nontrivial=res.nontrivial, evals=res.evals,
-                       sigs=res.sigs)
-            if res.violations:
-                rec["violations"] = [v.to_json() for v in res.violations]
-                rec["trace"] = trace
-            elif idx % 97 == 0 or idx < 2:
-                rec["trace"] = trace
-                rec["info"] = res.info
+            if recheck_every and idx % recheck_every == 0:
+                # determinism: the same trace again, in another pristine fork
+                st2, rec2 = _in_fork(lambda: run_trace(
+                    check, rec["trace"]).digest)
+                if st2 != "ok" or rec2 != rec["digest"]:
+                    out.append({"idx": idx, "seed": seed, "harness_error":
+                                f"non-deterministic execution idx={idx} "
+                                f"{rec['digest']} != {rec2}"})
+                    continue
+                rec["rechecked"] = True
+                if "violations" not in rec and not (idx % 97 == 0
+                                                    or idx < 2):
+                    rec.pop("trace", None)
             out.append(rec)
     finally:
         faulthandler.cancel_dump_traceback_later()
@@ -323,12 +393,9 @@ def minimise(check, trace, key, budget_s, max_exec=4000):
             if time.monotonic() > deadline or execs >= max_exec:
                 break
             execs += 1
-            try:
-                res = run_trace(check, cand)
-            except KeyboardInterrupt:
-                raise
-            except BaseException:  # noqa: BLE001 - invalid candidate, skip
-                continue
+            st, res = _in_fork(lambda: _slim(run_trace(check, cand)))
+            if st != "ok":
+                continue            # invalid candidate, skip
             if any(v.key == key for v in res.violations):
                 cur = cand
                 progress = True
@@ -375,8 +442,10 @@ def _verify_replay_fresh(script, path):
 def replay_main(check, path):
     with open(path) as f:
         doc = json.load(f)
-    check.setup_worker()
-    res = run_trace(check, doc["trace"])
+    prepare(check)
+    st, res = _in_fork(lambda: _slim(run_trace(check, doc["trace"])))
+    if st != "ok":
+        raise HarnessError("replay execution failed:\n" + str(res))
     want = doc["violation"]["key"]
     got = [v for v in res.violations if v.key == want]
     if got and (not doc.get("digest") or res.digest == doc["digest"]):
@@ -442,7 +511,7 @@ def _explore(check, script_file, args):
     sys.stdout.flush()
 
     if args.one is not None:
-        check.setup_worker()
+        prepare(check)
         seed = run_seed(base_seed, check.pid, args.one)
         trace = check.gen(random.Random(seed), tier, args.one)
         print(json.dumps(trace, indent=1)[:6000])
@@ -523,7 +592,7 @@ def _explore(check, script_file, args):
 
     reported = 0
     if by_key:
-        check.setup_worker()
+        prepare(check)
     for key in sorted(by_key)[:6]:
         rec, v = by_key[key]
         start = dict(rec["trace"])
@@ -531,7 +600,10 @@ def _explore(check, script_file, args):
             start.update(v["narrow"])
         small, execs = minimise(check, start, v["key"],
                                 check.shrink_budget_s)
-        res = run_trace(check, small)
+        st, res = _in_fork(lambda: _slim(run_trace(check, small)))
+        if st != "ok":
+            raise HarnessError("minimised trace failed to execute:\n"
+                               + str(res))
         vv = next((x for x in res.violations if x.key == v["key"]), None)
         if vv is None:
             raise HarnessError(f"violation {v} did not reproduce in-process "
